@@ -282,6 +282,33 @@ Definition spec_ok (i : input) (o : obs) : bool :=
   | _, _ => false
   end.
 
+(* ---------- notions used in the statements of the theorems ---------- *)
+
+(* every attribute of i occurs with an equal value in m (presence required) *)
+Definition within (i m : amap) : Prop :=
+  forall k v, lookup k i = Some v -> lookup k m = Some v.
+
+(* two interpretations with the same attributes *)
+Definition same_attrs (a b : amap) : Prop := forall k, lookup k a = lookup k b.
+
+(* the interpretations of the x509.subject identities of a list, in order *)
+Definition x509_maps (ids : list string) : list amap :=
+  flat_map (fun id =>
+    match x509_value id with
+    | Some v => match parse_distinguished_name v with DOk i => [i] | DErr _ => [] end
+    | None => []
+    end) ids.
+
+(* the identity string of an abstract DN written in some style *)
+Definition id_of (d : list (astyle * attr)) : string := "x509.subject:" ++ render d.
+
+Definition styled_wf (d : list (astyle * attr)) : bool :=
+  dn_wf (map snd d) && forallb style_wf d.
+
+(* abstract subset: every (type, value) of a is an attribute of b *)
+Definition abs_subset (a b : list attr) : bool :=
+  forallb (fun kv => existsb (fun kv' => String.eqb (fst kv) (fst kv') && String.eqb (snd kv) (snd kv')) b) a.
+
 (* ---------- cases ---------- *)
 Record case := mk_case { c_id : N; c_in : input; c_obs : obs }.
 
